@@ -401,6 +401,22 @@ func buildQueries(depth int) []*query {
 		}
 		add(&query{tmpl: "SELECT COUNT(*) FROM {T}{IX} WHERE " + p + " AND id >= 1", cls: "count", forced: true})
 	}
+	// 1b. range merging: every pair of bounds on the indexed column a (operators <, <=, >, >=, = x constants 1, 2), AND / OR:
+	// two bounds on the same side with mixed strictness, empty and degenerate ranges
+	var bounds []string
+	for _, o := range []string{"<", "<=", ">", ">=", "="} {
+		for _, v := range []string{"1", "2"} {
+			bounds = append(bounds, "a "+o+" "+v)
+		}
+	}
+	for i, p := range bounds {
+		for _, q := range bounds[i+1:] {
+			for _, con := range []string{" AND ", " OR "} {
+				pq := p + con + q
+				add(&query{tmpl: "SELECT " + cols + " FROM {T}{IX} WHERE " + pq, cls: "range2", forced: true, pred: pq})
+			}
+		}
+	}
 	tlpPreds = preds
 	// 2. ORDER BY (one / two columns, asc / desc), LIMIT / OFFSET only under a total order
 	var orders []string
